@@ -16,10 +16,11 @@ handle_event calls), so N must be pure with respect to the writer — its effect
 must not contain a write to any field of Libtest — and its arguments must not depend on the event kind or metadata;
 (R2) every synthetic `started` (hook failure, parser error: no runner Started event exists) is emitted in the same
 batch as exactly one result event built from a clone of the same name; (R3) counter <-> event table of Libtest and
-each Step variant maps to the test event of the matching kind; (R4) the suite verdict (= C01.R5).
+each Step variant maps to the test event of the matching kind; (R4) the suite verdict (= C01.R5); (R5) JUnit: the
+event deciding a test case's result is never a skipped failure and the (event -> success/skipped/failure) table.
 Declined: JSON, JUnit and terminal writers, and the parsed-back content of any report (document text is runtime data).
 """
-DECLINED = ["Cucumber JSON writer", "JUnit XML writer", "terminal (Basic) writer", "well-formedness / escaping of any document",
+DECLINED = ["Cucumber JSON writer", "JUnit XML writer beyond the outcome classification of a test case (R5)", "terminal (Basic) writer", "well-formedness / escaping of any document",
             "suite totals as numbers"]
 ASSUMPTIONS = ["Libtest sits behind Normalize (documented), so a feature's events are contiguous"]
 
@@ -189,4 +190,55 @@ def r4(F, R):
     c01.r5(F, R)
 
 
-RULES = [("R1", r1, None), ("R2", r2, None), ("R3", r3, None), ("R4", r4, None)]
+def r5(F, R):
+    """JUnit clause: the test case's outcome is decided by the last event that is not a Log / passing After-hook event, and a
+    failure event always yields a `failure` test case (path tables of JUnit::test_case and of its selection closure)."""
+    tcs = [b for b in F.crate_bodies() if (b.impl or {}).get("self_adt") == "writer::junit::JUnit" and not (b.impl or {}).get("trait") and
+           any("TestCaseBuilder" in (callee_path(t) or "") for _, t in b.calls())]
+    tcs = [b for b in tcs if any(re.search(r"event::RetryableScenario", ty) for ty in b.locals[1:b.arg_count + 1])]
+    if len(tcs) != 1:
+        raise Unverifiable(f"JUnit::test_case role: {len(tcs)}")
+    b = tcs[0]
+
+    def dec(p):
+        out = {}
+        for a, o in p.decisions:
+            m = re.search(r":event::(\w+)\)$", a)
+            if m:
+                out[m.group(1)] = o
+        return out
+    # selection closure(s): bool closures over event::Scenario inside test_case
+    sel = [nb for nb in F.nested(b) if nb is not b and nb.kind == "Closure" and nb.locals[0] == "bool"]
+    skipped_failed = []
+    n_sel = 0
+    for kb in sel:
+        for p in A.enumerate_paths(kb):
+            d = dec(p)
+            if not d:
+                continue
+            n_sel += 1
+            if p.ret is False:
+                # an event may be skipped only if it is positively known to be a Log or a non-failing hook event
+                harmless = d.get("Scenario") == "Log" or (d.get("Scenario") == "Hook" and d.get("Hook") in ("Passed", "Started", "Passed|Started", "Started|Passed"))
+                if not harmless:
+                    skipped_failed.append(d)
+    R.check(n_sel >= 4 and not skipped_failed, "junit/outcome-event-selection", sel[0] if sel else b, "only Log and non-failing After-hook events are skipped",
+            f"JUnit skips {skipped_failed[:2]} when choosing the event that decides a test case's result: that failure is reported as success")
+    table = {}
+    for p in A.enumerate_paths(b, max_paths=4000):
+        d = dec(p)
+        kinds = tuple(sorted({callee_path(t).rsplit("::", 1)[-1] for s, t in p.calls() if "TestCaseBuilder" in (callee_path(t) or "") and not callee_path(t).endswith("::build")}))
+        key = (d.get("Scenario"), d.get("Step") or d.get("Hook"))
+        if key[0]:
+            table.setdefault(key, set()).add(kinds)
+    bad = []
+    for (sc, v), ks in table.items():
+        want = ("failure",) if v == "Failed" else (("skipped",) if v == "Skipped" else ("success",))
+        if ks != {want}:
+            bad.append(((sc, v), sorted(ks)))
+    need = {("Hook", "Failed"), ("Step", "Failed"), ("Background", "Failed"), ("Step", "Skipped"), ("Background", "Skipped"), ("Step", "Passed")}
+    R.check(not bad and need <= set(table), "junit/outcome-table", b, f"{len(table)} (event -> test case kind) rows", f"JUnit test case kinds: {bad[:3]} (missing rows: {sorted(need - set(table))})")
+    R.floor(2)
+
+
+RULES = [("R5", r5, ["all", "junit"]), ("R1", r1, None), ("R2", r2, None), ("R3", r3, None), ("R4", r4, None)]
